@@ -198,6 +198,24 @@ def tlc_sim(ctx, module, cfg, num, depth, seed, timeout=300, tag=None):
     return res
 
 
+def tlc_enumerate(ctx, module, cfg, timeout=600, tag=None):
+    """Model-checking mode used as an exhaustive GENERATOR: the module prints every complete behaviour once (from an action) as
+    <<"BEHAVIOUR", ToJson(h)>>; returns them all.  TLC's state count is added to the coverage."""
+    out, dt, d = _tlc(ctx, module + '.tla', cfg, [], timeout, tag or ('enum-' + cfg.replace('.cfg', '')), 1)
+    st = parse_tlc_stats(out)
+    if 'Error:' in out or 'distinct' not in st or st.get('queue', 1) != 0:
+        raise Infra(f'TLC enumeration failed for {module}/{cfg}:\n' + out[-3000:])
+    ctx.states += st['distinct']
+    ctx.transitions += st['generated']
+    res = []
+    for line in out.splitlines():
+        if line.startswith('<<"BEHAVIOUR", '):
+            res.append(json.loads(json.loads(line.strip()[len('<<"BEHAVIOUR", '):-2])))
+    if not res:
+        raise Infra(f'TLC enumeration produced no behaviour for {module}/{cfg}')
+    return res
+
+
 def tlc_trace(ctx, module, cfg, trace_path, timeout=300, tag=None, trace_name='trace.ndjson', done_inv=None):
     """Trace validation: copies the trace next to the spec, runs TLC (1 worker, depth-first queue) and reports
     (accepted, highwater, stats, out).  Acceptance is decided by the POSTCONDITION of the cfg."""
